@@ -12,6 +12,7 @@ struct Block {
   int  prog = -1;             // allocating logical thread
   int  subproc = 0;
   int  slot = -1;
+  int  orphan_kind = 0;       // 0 none, 1 owner thread ended, 2 its tagged heap was deleted, 3 its arena-bound heap was deleted
 };
 
 enum HeapKind { HK_BACKING = 0, HK_NEW = 1, HK_EX = 2, HK_ARENA = 3 };
@@ -29,6 +30,7 @@ struct ThreadCtx {
   int subproc = 0;
   int expect_err_mask = 0;   // errors the current operation may legitimately report (bit per class)
   int got_err_mask = 0; int got_err_count = 0;
+  char note[160];            // context appended to crash/abort reports of the current operation
 };
 enum { EB_ENOMEM = 1, EB_EOVERFLOW = 2, EB_EAGAIN = 4, EB_EFAULT = 8, EB_EINVAL = 16, EB_OTHER = 32 };
 
@@ -45,10 +47,12 @@ struct Harness {
   bool any_fault_fired_or_pending = false;
   uint64_t ops_executed = 0, ops_noop = 0, allocs = 0, frees = 0, reallocs = 0, nulls = 0;
   uint64_t bytes_verified = 0;
-  uint64_t footprint_marks = 0; std::vector<uint64_t> fp_mapped, fp_resident, fp_accessible;
+  uint64_t footprint_marks = 0; std::vector<uint64_t> fp_mapped, fp_resident, fp_accessible, fp_work; uint64_t work_hash = 0; uint64_t activity_rounds = 0;
   std::string sample_ops;
   uint64_t misuse_expected = 0, misuse_detected = 0;
   uint64_t pc_max_pages = 0, pc_max_accessible = 0, pc_samples = 0;
+  struct Watch { uintptr_t p; size_t usable; size_t log_index; uint64_t t_ms; bool dropped; uint64_t rounds_at_free; };
+  std::vector<Watch> watch; std::vector<uintptr_t> sentinel_bases;
   bool forced_abandon_possible = false;   // target_segments_per_thread > 0 or mi_collect_reduce used: pages may leave their heap
 };
 extern Harness H;
